@@ -50,6 +50,10 @@ pub enum Field {
     SkipChain { flag1: u8, mask1: u8, flag2: u8, mask2: u8, target: Shape },
     /// a flag whose SkipField names itself: it has already been processed when the option is seen, so it is always present
     SelfSkip { flag: u8 },
+    /// a length field (value 1) bounding a flag byte that itself may skip the field after it: a size-bounded field with options of its own
+    SizedFlag { width: u8, be: bool, flag: u8, mask: u8, target: Shape },
+    /// a length field bounding a second length field which bounds a block (a TLV header whose own size is announced)
+    SizedLen { w1: u8, be1: bool, w2: u8, be2: bool, data: Vec<u8> },
 }
 
 #[derive(Debug, Clone, PartialEq, Eq)]
@@ -132,6 +136,18 @@ fn ser(s: &Shape, out: &mut Vec<u8>) {
                         }
                     }
                     Field::SelfSkip { flag } => out.push(*flag),
+                    Field::SizedFlag { width, be, flag, mask, target } => {
+                        ser(&lenfield(*width, *be, 1), out);
+                        out.push(*flag);
+                        if flag & mask == 0 {
+                            ser(target, out);
+                        }
+                    }
+                    Field::SizedLen { w1, be1, w2, be2, data } => {
+                        ser(&lenfield(*w1, *be1, *w2 as usize), out);
+                        ser(&lenfield(*w2, *be2, data.len()), out);
+                        out.extend_from_slice(data);
+                    }
                 }
             }
         }
@@ -160,6 +176,8 @@ fn blank(s: &Shape) -> Shape {
                     Field::Skip { mask, target, .. } => Field::Skip { flag: 0, mask: *mask, target: blank(target) },
                     Field::SkipChain { mask1, mask2, target, .. } => Field::SkipChain { flag1: 0, mask1: *mask1, flag2: 0, mask2: *mask2, target: blank(target) },
                     Field::SelfSkip { .. } => Field::SelfSkip { flag: 0 },
+                    Field::SizedFlag { width, be, mask, target, .. } => Field::SizedFlag { width: *width, be: *be, flag: 0, mask: *mask, target: blank(target) },
+                    Field::SizedLen { w1, be1, w2, be2, .. } => Field::SizedLen { w1: *w1, be1: *be1, w2: *w2, be2: *be2, data: vec![] },
                 })
                 .collect(),
         ),
@@ -235,6 +253,20 @@ fn leaves_m(s: &Shape, out: &mut Vec<Leaf>, unread: bool) {
                         }
                     }
                     Field::SelfSkip { flag } => out.push(Leaf::U8(*flag)),
+                    Field::SizedFlag { width, be, flag, mask, target } => {
+                        leaves(&lenfield(*width, *be, 1), out);
+                        out.push(Leaf::U8(*flag));
+                        if flag & mask == 0 {
+                            leaves_m(target, out, unread)
+                        } else {
+                            leaves_m(&blank(target), out, true)
+                        }
+                    }
+                    Field::SizedLen { w1, be1, w2, be2, data } => {
+                        leaves(&lenfield(*w1, *be1, *w2 as usize), out);
+                        leaves(&lenfield(*w2, *be2, data.len()), out);
+                        out.push(Leaf::Slice(data.clone()));
+                    }
                 }
             }
         }
@@ -360,6 +392,19 @@ fn build_component(fs: &[Field], writing: bool) -> Component {
                 c.insert(name.clone(), Box::new(DynOption::new(*flag, move |v: &u8| if *v & m != 0 { MessageOption::SkipField(tn.clone()) } else { MessageOption::None })));
                 c.insert(tname, build(target, writing));
             }
+            Field::SizedFlag { width, be, flag, mask, target } => {
+                let (fname, tname) = (format!("f{}flag", i), format!("f{}tgt", i));
+                c.insert(name.clone(), len_message(*width, *be, 1, fname.clone()));
+                let (m, tn) = (*mask, tname.clone());
+                c.insert(fname, Box::new(DynOption::new(*flag, move |v: &u8| if *v & m != 0 { MessageOption::SkipField(tn.clone()) } else { MessageOption::None })));
+                c.insert(tname, build(target, writing));
+            }
+            Field::SizedLen { w1, be1, w2, be2, data } => {
+                let (n2, dname) = (format!("f{}len2", i), format!("f{}data", i));
+                c.insert(name.clone(), len_message(*w1, *be1, *w2 as usize, n2.clone()));
+                c.insert(n2, len_message(*w2, *be2, data.len(), dname.clone()));
+                c.insert(dname, Box::new(data.clone()));
+            }
         }
     }
     c
@@ -474,6 +519,8 @@ fn min_len(s: &Shape) -> usize {
                 Field::Plain(x) => min_len(x),
                 Field::SizedBlock { width, .. } | Field::SizedArray { width, .. } | Field::SizedOptional { width, .. } => *width as usize,
                 Field::Skip { .. } | Field::SkipChain { .. } | Field::SelfSkip { .. } => 1,
+                Field::SizedFlag { width, .. } => *width as usize + 1,
+                Field::SizedLen { w1, w2, .. } => (*w1 + *w2) as usize,
             })
             .sum(),
     }
@@ -518,10 +565,17 @@ fn gen_shape(s: &mut Src, depth: usize) -> Shape {
 fn gen_field(s: &mut Src, depth: usize) -> Field {
     let width = s.pick(&[1u8, 2, 2, 4]);
     let be = s.bool();
-    match s.below(9) {
+    match s.below(11) {
+        9 => Field::SizedFlag { width, be, flag: s.u8(), mask: s.pick(&[0x01u8, 0x20, 0x80, 0xFF]), target: gen_shape(s, depth.min(1)) },
+        10 => {
+            let w2 = s.pick(&[1u8, 2, 4]);
+            let n = if w2 == 1 { s.below(20) } else { s.below(300) };
+            Field::SizedLen { w1: width, be1: be, w2, be2: s.bool(), data: s.fill(n) }
+        }
         0 | 1 | 2 => Field::Plain(gen_shape(s, depth)),
         3 | 4 => {
-            let n = if width == 1 { s.below(20) } else { s.below(300) };
+            // block-size boundaries only outside sized containers (depth >= 2 fields are never inside one): the enclosing length field must be able to hold the size
+            let n = if width == 1 { s.below(20) } else if depth >= 2 && s.chance(24) { s.pick(&[4095usize, 4096, 4097, 8191, 8192, 8193, 12288, 16384, 1500, 65535]) } else { s.below(300) };
             let g = s.below(3);
             Field::SizedBlock { width, be, gap: (0..g).map(|_| gen_scalar(s)).collect(), data: s.fill(n) }
         }
@@ -570,6 +624,11 @@ fn revalue(t: &Shape, s: &mut Src) -> Shape {
                     Field::Skip { mask, target, .. } => Field::Skip { flag: s.u8(), mask: *mask, target: revalue(target, s) },
                     Field::SkipChain { mask1, mask2, target, .. } => Field::SkipChain { flag1: s.u8(), mask1: *mask1, flag2: s.u8(), mask2: *mask2, target: revalue(target, s) },
                     Field::SelfSkip { .. } => Field::SelfSkip { flag: s.u8() },
+                    Field::SizedFlag { width, be, mask, target, .. } => Field::SizedFlag { width: *width, be: *be, flag: s.u8(), mask: *mask, target: revalue(target, s) },
+                    Field::SizedLen { w1, be1, w2, be2, data } => {
+                        let n = if *w2 == 1 { s.below(20) } else { s.below(data.len() + 8) };
+                        Field::SizedLen { w1: *w1, be1: *be1, w2: *w2, be2: *be2, data: s.fill(n) }
+                    }
                     other => other.clone(),
                 })
                 .collect(),
@@ -1338,6 +1397,29 @@ pub fn check(rep: &Report) {
         rep.enumerate("per-integer-u32-exhaustive", true, |p, n| ((p as u64)..(1u64 << 32)).step_by(n).map(|v| PerCase::Integer(v as u32)), run_per);
     }
     rep.random("per-random", tier.n(300_000, 6_000_000), 16, decode_per, run_per);
+    // size-bounded fields at block-size boundaries, each followed by further fields, flat and nested
+    let mut sized = Vec::new();
+    for n in [0usize, 1, 255, 256, 1499, 1500, 1501, 4095, 4096, 4097, 8191, 8192, 8193, 12288, 16383, 16384, 16385, 32768, 65535] {
+        for width in [2u8, 4] {
+            let data: Vec<u8> = (0..n).map(|i| (i * 7 + 1) as u8).collect();
+            let rec = vec![Field::SizedBlock { width, be: width == 4, gap: vec![], data: data.clone() }, Field::Plain(Shape::U16 { v: 0xBEEF, be: false }), Field::Skip { flag: 0, mask: 1, target: Shape::U8(9) }];
+            sized.push(ModelCase { shape: Shape::Component(rec.clone()) });
+            sized.push(ModelCase { shape: Shape::Component(vec![Field::Plain(Shape::Component(rec.clone())), Field::Plain(Shape::U32 { v: 7, be: true })]) });
+            sized.push(ModelCase { shape: Shape::Component(vec![Field::SizedLen { w1: 2, be1: false, w2: width, be2: true, data: data.clone() }, Field::Plain(Shape::U8(0x77))]) });
+            if n >= 1 && n <= 65000 {
+                sized.push(ModelCase { shape: Shape::Component(vec![Field::SizedOptional { width: 4, be: false, head: vec![Shape::Block(data.clone()), Shape::U8(1)], tail: Some(Shape::U16 { v: 5, be: false }), tail_template: Shape::U16 { v: 0, be: false } }, Field::Plain(Shape::U8(3))]) });
+            }
+        }
+    }
+    // a size-bounded flag that skips (or keeps) what follows it
+    for flag in [0u8, 1, 0x80, 0xFF] {
+        for width in [1u8, 2, 4] {
+            for target in [Shape::U8(0x42), Shape::U32 { v: 0xDEADBEEF, be: false }, Shape::Block(vec![1, 2, 3])] {
+                sized.push(ModelCase { shape: Shape::Component(vec![Field::Plain(Shape::U8(5)), Field::SizedFlag { width, be: false, flag, mask: 0x81, target: target.clone() }, Field::Plain(Shape::U16 { v: 0x1234, be: true })]) });
+            }
+        }
+    }
+    rep.list("sized-boundaries", sized, run_model);
     rep.random("model", tier.n(600_000, 20_000_000), 200, decode_model, run_model);
     rep.random("asn1", tier.n(200_000, 6_000_000), 160, decode_asn, run_asn);
     rep.random("gcc", tier.n(200_000, 6_000_000), 96, decode_gcc, run_gcc);
